@@ -91,12 +91,20 @@ def within(got, cnt, amb):
 def run_unit(unit, rng, ctx):
     from gemdat.rdf import radial_distribution, radial_distribution_between_species
 
-    sys_ = gen.make_site_system(rng, T=int(rng.integers(6, 40)), n_sites=int(rng.integers(2, 7)), n_atoms=int(rng.integers(1, 4)), margin=0.04, p_move=float(rng.choice([0.2, 0.4, 0.6])), n_framework=int(rng.integers(2, 6)), n_labels=int(rng.integers(1, 4)), lo=5.0, hi=9.0)
+    skewed = unit['i'] % 4 == 1
+    sys_ = gen.make_site_system(rng, kind=(str(rng.choice(['triclinic_strong', 'rhombohedral', 'hexagonal', 'monoclinic'])) if skewed else None), T=int(rng.integers(6, 40)), n_sites=int(rng.integers(2, 7)), n_atoms=int(rng.integers(1, 4)), margin=0.04, p_move=float(rng.choice([0.2, 0.4, 0.6])), n_framework=int(rng.integers(2, 6)), n_labels=int(rng.integers(1, 4)), lo=5.0, hi=9.0)
     m = sys_.matrix
     names = sys_.species_names
     T, N, _ = sys_.coords.shape
     # half of the cut-offs come from a small set, so that the same (cut-off, resolution) recurs within a process
     max_dist = float(rng.uniform(2.0, 6.0)) if rng.integers(2) else float(rng.choice([2.5, 4.0, 5.0]))
+    if skewed:
+        # skewed cell: a cut-off between half the smallest perpendicular width and half the shortest edge (the cut-off
+        # sphere fits between lattice points along every edge but not between lattice planes)
+        lo_, hi_ = 0.5 * float(geom.perp_widths(sys_.matrix).min()), 0.5 * float(np.linalg.norm(sys_.matrix, axis=1).min())
+        if hi_ - lo_ > 0.15 and hi_ > 2.0:
+            max_dist = float(rng.uniform(max(lo_ + 0.05, 1.5), hi_ - 0.02))
+            ctx.count('cut_offs_between_half_perpendicular_width_and_half_edge')
     res = float(rng.choice([0.1, 0.25, 0.5, 0.02, 0.015]))  # the last two give more than 255 bins
     ctx.count('fine_resolution_cases', res < 0.05)
     what = f'{sys_.kind}{"/rot" if sys_.rotated else ""} labels={sys_.labels} species={names} max_dist={max_dist:.3f} res={res}'
